@@ -190,6 +190,7 @@ func runBatches(b *Build, batches []Batch, workers int, perBatchTimeout time.Dur
 	var mu sync.Mutex
 	next := 0
 	stop := false
+	stuckSeen := 0
 	var wg sync.WaitGroup
 	for w := 0; w < workers; w++ {
 		wg.Add(1)
@@ -244,7 +245,14 @@ func runBatches(b *Build, batches []Batch, workers int, perBatchTimeout time.Dur
 				}
 				mu.Lock()
 				results[i] = r
-				if stopOnViolation && (r.Viol != nil || r.ExitCode != 0) {
+				if stopOnViolation && r.ExitCode == 5 && r.Viol == nil {
+					// a stuck simulation: that batch is repeated operation-granular later; the others carry on as they
+					// are until it has happened so often that it is clearly this tree's habit
+					stuckSeen++
+					if stuckSeen > 8 {
+						stop = true
+					}
+				} else if stopOnViolation && (r.Viol != nil || r.ExitCode != 0) {
 					stop = true
 				}
 				if stopOnViolation && r.AloneChecked && !r.AloneNA && r.AloneHash != "" && r.AloneRun < len(r.Done) && r.AloneHash != r.Done[r.AloneRun].ResHash {
